@@ -33,12 +33,13 @@ func GetNextMineWindow(nextHeight uint32, distance uint32, parentTime int64, cur
 
 // GetCorrectMiner get the correct miner to mine a block after parent block
 func GetCorrectMiner(parent *types.Header, mineTime int64, mineTimeout int64, dm *deputynode.Manager) (common.Address, error) {
-	if mineTime < 1e10 {
-		panic("mineTime should be milliseconds")
-	}
+	// mineTime may come from a received block. So test it before the unit check
 	passTime := mineTime - int64(parent.Time)*1000
 	if passTime < 0 {
 		return common.Address{}, ErrSmallerMineTime
+	}
+	if mineTime < 1e10 {
+		panic("mineTime should be milliseconds")
 	}
 	nodeCount := dm.GetDeputiesCount(parent.Height + 1)
 	// 所有节点都超时所需要消耗的时间，也可以看作是下一轮出块的开始时间
